@@ -245,6 +245,22 @@ def coqchk_props(prop, timeout=5400):
     return rc, info
 
 
+def coq_eval_numbers(requires, term, name, timeout=600):
+    """Evaluate a closed term of type `list N` INSIDE Coq (vm_compute by the kernel's VM, no extraction) and return the
+    numbers it prints: used to cross-check the extracted OCaml model on a sample of cases (three-way agreement)."""
+    d = os.path.join(OUT, "coqeval")
+    os.makedirs(d, exist_ok=True)
+    path = os.path.join(d, name + ".v")
+    open(path, "w").write(f"From Coq Require Import NArith ZArith List.\nFrom PTQ Require Import {requires}.\nImport ListNotations.\n"
+                          f"Local Open Scope N_scope.\nDefinition cases_result : list N := {term}.\n"
+                          "Eval vm_compute in cases_result.\n")
+    rc, out, dt = sh(f"timeout {timeout} coqc -Q {COQ} PTQ {path}", cwd=d, timeout=timeout + 30)
+    if rc != 0:
+        return None, out[-400:]
+    body = out[out.index("=") + 1:out.rindex(":")] if "=" in out and ":" in out else ""
+    return [int(x) for x in re.findall(r"\d+", body)], ""
+
+
 def parse_assumptions(prop_file, coqc_out):
     """Pair every 'Theorem name' followed by 'Print Assumptions name' with the output block."""
     text = strip_comments(open(os.path.join(COQ, prop_file)).read())
